@@ -17,7 +17,7 @@ from vmon.libutil import load_definition, monitored
 LEVEL = "exploration"
 SHARDS = {"quick": 16, "thorough": 16}
 KINDS = ("integer", "float", "enumerated", "boolean", "string", "binary", "abstime", "reltime")
-MUST = ["datasets", "cells.compared", "mode.raw", "mode.derived", "files.multi", "apids.multi", "polymorphic.rejected", "manyrows.datasets", "files.form.generator", "files.form.iter", "files.form.tuple"] + [f"cells.{k}" for k in KINDS]
+MUST = ["datasets", "cells.compared", "mode.raw", "mode.derived", "files.multi", "files.truncated_tail_before_next_file", "apids.multi", "polymorphic.rejected", "manyrows.datasets", "files.form.generator", "files.form.iter", "files.form.tuple"] + [f"cells.{k}" for k in KINDS]
 RULE = ("case = (flat definition: abstract root + one concrete child container per APID, each with a fixed list of "
         "parameters of random kinds/encodings; packet files: 1-3 files, 1-4 APIDs interleaved, values at encoding extremes "
         "- 0, max, sign bit, NaN/inf, empty and NUL-terminated strings/bytes; mode raw/derived). create_dataset's result is "
@@ -131,8 +131,17 @@ def run(ctx):
             for fi in range(nfiles):
                 raws = [pb.build(f"APID_{rng.choice(apids)}")[0] for _ in range(rng.randrange(1, 9))]
                 path = os.path.join(scratch, f"d{i}_f{fi}.bin")
+                tail = b""
+                if rng.random() < 0.3:
+                    # a file cut off in the middle of a packet (size-based rotation): the incomplete packet is not a packet of
+                    # the stream and must not disturb the rows of this file or of the next one
+                    extra = pb.build(f"APID_{rng.choice(apids)}")[0]
+                    tail = extra[:rng.randrange(1, len(extra))]
+                    ctx.count("files.truncated_tail")
+                    if fi < nfiles - 1:
+                        ctx.count("files.truncated_tail_before_next_file")
                 with open(path, "wb") as f:
-                    f.write(b"".join(raws))
+                    f.write(b"".join(raws) + tail)
                 files.append(path)
                 stream_packets += raws
             outs = [ref.walk(doc, r) for r in stream_packets]
